@@ -402,8 +402,11 @@ Qed.
 
 Lemma main_step_J fuel w p : Jw w -> Jw (fst (fst (main_step fuel w p))).
 Proof.
-  intros HJ. unfold main_step. destruct p as [k| | | | |].
-  - destruct (tw_bells (w_tower w)); [|exact HJ]. destruct (k <? 20); [apply sleep_J|]; exact HJ.
+  intros HJ. unfold main_step. destruct p as [k lt| | | | |].
+  - destruct (tw_bells (w_tower w)); [destruct (k <? 20); [apply sleep_J|]; exact HJ|].
+    destruct lt as [t|]; [|exact HJ].
+    pose proof (look_to_J (sleep_until fuel) w t (fun w0 t0 H => sleep_until_J fuel w0 t0 H) HJ) as JL.
+    destruct (look_to_has_been_called (sleep_until fuel) w t) as [w' [e|]]; exact JL.
   - exact HJ.
   - destruct (b_ringing (w_bot w)); [exact HJ|].
     set (w1 := sleep fuel w SLEEP_001). assert (J1 : Jw w1) by (apply sleep_J; exact HJ).
@@ -1000,8 +1003,10 @@ Lemma exit_only_when_idle fuel w p w' p' :
   p = PIdle /\ b_ringing (w_bot w) = false /\ server_mode w' = true
   /\ Qltb (qadd (b_last_activity (w_bot w')) INACTIVITY) (w_now w') = true.
 Proof.
-  unfold main_step. destruct p as [k| | | | |].
-  - destruct (tw_bells (w_tower w)); [destruct (k <? 20); discriminate | discriminate].
+  unfold main_step. destruct p as [k lt| | | | |].
+  - destruct (tw_bells (w_tower w)); [destruct (k <? 20); discriminate |].
+    destruct lt as [t|]; [|discriminate].
+    destruct (look_to_has_been_called (sleep_until fuel) w t) as [w0 [e|]]; discriminate.
   - discriminate.
   - destruct (b_ringing (w_bot w)) eqn:R; [discriminate|].
     set (w1 := sleep fuel w SLEEP_001).
